@@ -85,3 +85,43 @@ func VH_locate_inventory() {
 	}
 	vReach("end")
 }
+
+// C17(6'): HeightRange(start, end) on a main chain of 1..6 blocks with a side branch: an error for start < 0 or
+// end < start; otherwise exactly the main-chain hashes at heights start .. min(end, tip+1)-1 in order - in particular
+// the tip itself for HeightRange(tip, tip+1) - for all start / end (symbolic int32).
+//verif:opts reach=ok,err
+func VH_height_range() {
+	n := 1 + vNondetLen("chainLen", 5)
+	main := vMkChain(nil, n, 1)
+	params := &chaincfg.Params{}
+	b := &BlockChain{index: newBlockIndex(nil, params), bestChain: newChainView(main[n-1])}
+	for _, nd := range main {
+		b.index.addNode(nd)
+	}
+	if n >= 2 {
+		for _, nd := range vMkChain(main[0], 2, 2) {
+			b.index.addNode(nd)
+		}
+	}
+	start, end := vNondetI32("start"), vNondetI32("end")
+	got, err := b.HeightRange(start, end)
+	if start < 0 || end < start {
+		vAssert(err != nil, "invalid ranges are an error")
+		vReach("err")
+		return
+	}
+	vAssert(err == nil, "valid ranges succeed")
+	hi := int64(end)
+	if hi > int64(n) {
+		hi = int64(n)
+	}
+	want := hi - int64(start)
+	if want < 0 {
+		want = 0
+	}
+	vAssert(int64(len(got)) == want, "exactly the heights start .. min(end, tip+1)-1")
+	for i := range got {
+		vAssert(got[i] == main[int(start)+i].hash, "main-chain hashes in height order")
+	}
+	vReach("ok")
+}
